@@ -24,3 +24,5 @@ def run(ck):
     region.r7_14_running_extremes_independent(ck, P, 'C06-R11')      # extents enclose the rectangles
     region.r6_12_clamped_boxes_revalidated(ck, P)
     region.r7_1_overflow_width(ck, P, 'C06-R13')                    # a wrapped coordinate yields malformed (x1 > x2) or misordered rectangles
+    region.r6_14_no_coalesce_after_bulk_append(ck, P)
+    region.r5_8_cached_field_follows_cursor(ck, P, 'C06-R15')       # a stale fence emits overlapping, unordered rectangles
